@@ -106,7 +106,10 @@ func harvestedFor(e *Eco) (versions, ranges []string) {
 			continue
 		}
 		seen[s] = true
-		if pr := e.Parse(s); pr.OK && pr.Panic == "" {
+		// a version literal, not a sentence that a lenient grammar happens to accept (test names,
+		// error messages)
+		plain := len(s) <= 48 && !strings.ContainsAny(strings.TrimSpace(s), " \"%'(),/")
+		if pr := e.Parse(s); pr.OK && pr.Panic == "" && plain {
 			versions = append(versions, s)
 		}
 		if pr := e.ParseRange(s); pr.OK && pr.Panic == "" {
@@ -325,10 +328,16 @@ func decorations(r *RNG, s string) []string {
 
 // pickRare: a candidate that contains one of the three rarest punctuation bytes of the candidate
 // set (def if there is none).
+// rareCycle >= 0: pickRare takes the rareCycle-th rarest byte (cyclically) instead of a random one.
+var rareCycle = -1
+
 func pickRare(r *RNG, all []string, def string) (string, byte) {
 	freq := map[byte]int{}
 	for _, s := range all {
 		seen := map[byte]bool{}
+		if strings.ContainsAny(strings.TrimSpace(s), " \"%'") {
+			continue
+		}
 		for i := 0; i < len(s); i++ {
 			if c := s[i]; tokClass(c) == 2 && c > ' ' && c < 0x7f && !seen[c] {
 				seen[c] = true
@@ -349,6 +358,9 @@ func pickRare(r *RNG, all []string, def string) (string, byte) {
 	}
 	sort.Slice(ks, func(i, j int) bool { return ks[i].n < ks[j].n || (ks[i].n == ks[j].n && ks[i].c < ks[j].c) })
 	c := ks[r.Intn(minInt(3, len(ks)))].c
+	if rareCycle >= 0 {
+		c = ks[rareCycle%len(ks)].c
+	}
 	var with []string
 	for _, s := range all {
 		if strings.IndexByte(s, c) >= 0 && len(s) < 60 {
